@@ -387,11 +387,15 @@ def run_converter_special(ctx, rng, which, ids):  # noqa: C901
             return type(o) is d_ and type(o.inner) is di and o.plain == 5 and all(getattr(o.inner, i) == k for k, i in enumerate(ids))
         desc["name"] = nm
     elif which == "typeddict-keyword-dst":
-        keys = rng.sample(keyword.kwlist, 2) + [ids[0]]
+        keys = rng.sample(keyword.kwlist, 2) + [ids[0]] + rng.choice([[], ["__debug__"], ["__debug__"]])     # f(__debug__=1) is a SyntaxError too
         ts = typing.TypedDict(f"TS{next(_n)}", {k: int for k in keys})
         td = typing.TypedDict(f"TD{next(_n)}", {k: int for k in keys})
         made = attempt(get_converter, ts, td)
         src = {k: i for i, k in enumerate(keys)}
+        loaded = attempt(Retort(recipe=[name_mapping(trim_trailing_underscore=False)]).load, dict(src), td)      # the loader passes the same names to the constructor
+        if loaded.kind != "ok" or loaded.value != src:
+            ctx.violation(f"generation-failed:loader:{type(getattr(loaded.exc, '__cause__', None) or loaded.exc).__name__}:typeddict-keyword-keys",
+                          f"TypedDict with keys {keys}: load gave {loaded!r:.200}", {"keys": keys})
 
         def check(o):
             return o == src
